@@ -9,6 +9,8 @@ pub mod c03;
 pub mod c04;
 pub mod c08;
 pub mod c09;
+pub mod c10;
+pub mod c11;
 pub mod c07;
 
 pub fn dispatch(ctx: &Ctx) -> Rec {
@@ -22,6 +24,8 @@ pub fn dispatch(ctx: &Ctx) -> Rec {
     "C04" => c04::run(ctx),
     "C08" => c08::run(ctx),
     "C09" => c09::run(ctx),
+    "C10" => c10::run(ctx),
+    "C11" => c11::run(ctx),
     "C07" => c07::run(ctx),
     other => {
       eprintln!("unknown property {}", other);
